@@ -1483,3 +1483,62 @@ def rf123(run):
     if n < 10:
         raise F.AnalysisBroken('RF123: only %d writes of item->addr found' % n)
     return n
+
+
+# ---------------------------------------------------------------------------------------------
+# RF128: an expr data item is filled with exactly the bytes reserved for it
+# ---------------------------------------------------------------------------------------------
+
+def rf128(run):
+    from lib import regions as R
+    rule = 'RF128'
+    run.rule(rule, 'MIR_link stores the value of an expr data item with memcpy.  load_bss_data_section reserved _MIR_type_size (result type) '
+                   'bytes for the item; the number of bytes copied is that same expression, or — inside a switch on the type — a constant '
+                   'equal to the size of every type that reaches the copy (1/2/4/8 for integers, 4, 8, 16 for f, d, ld, 8 for p).  A wider '
+                   'copy overwrites the items placed behind it in the section')
+    tu = run.tu('mir')
+    f = tu.func('MIR_link')
+    run.functions_analysed.add(('mir', f.name))
+    ty = dict(tu.enum('MIR_type_t'))
+    SIZE = {'MIR_T_I8': 1, 'MIR_T_U8': 1, 'MIR_T_I16': 2, 'MIR_T_U16': 2, 'MIR_T_I32': 4, 'MIR_T_U32': 4, 'MIR_T_I64': 8, 'MIR_T_U64': 8,
+            'MIR_T_F': 4, 'MIR_T_D': 8, 'MIR_T_LD': 16, 'MIR_T_P': 8}
+    copies = [x for x in f.walk() if x['k'] == 'CallExpr' and x.get('callee') == 'memcpy' and 'expr_data' in F.src(F.call_args(x)[0])
+              and 'load_addr' in F.src(F.call_args(x)[0])]
+    if not copies:
+        raise F.AnalysisBroken('MIR_link: the store of an expr data value was not found')
+    sws = [s_ for s_ in R.find_switches(f) if any(any(y is c for y in F.walk(s_)) for c in copies)]
+    regs = R.switch_regions(f, sws[0]) if sws else []
+    n = 0
+    for c in copies:
+        sz = F.strip(F.call_args(c)[2])
+        # the types that reach this copy
+        reach = set(SIZE)
+        if regs:
+            mine = [r for r in regs if any(y is c for s_ in r['stmts'] for y in F.walk(s_))]
+            if mine:
+                named = {cn for r in regs for cn, lo, hi in r['cases'] if cn in SIZE}
+                reach = set()
+                for r in mine:
+                    reach |= {cn for cn, lo, hi in r['cases'] if cn in SIZE}
+                    if r['default']:
+                        reach |= set(SIZE) - named
+        n += 1
+        if sz['k'] == 'CallExpr' and sz.get('callee') == '_MIR_type_size':
+            a = F.src(F.strip(F.call_args(sz)[1])).replace(' ', '')
+            const_t = a if a in SIZE else None
+            ok = const_t is None or all(SIZE[t] == SIZE[const_t] for t in reach)
+            what = '_MIR_type_size (%s)' % a
+        else:
+            v = F.const_value(sz)
+            if v is None:
+                raise F.AnalysisBroken('MIR_link: size `%s` of the expr data store not evaluable' % F.src(sz)[:40])
+            ok = all(SIZE[t] == v for t in reach)
+            what = '%d' % v
+        run.ob(rule, (c['l'],), ok, {'site': '%s:%d' % (f.relfile(), c['l']), 'bytes copied': what, 'result types reaching the copy': sorted(reach)})
+        if not ok:
+            wrong = sorted(t for t in reach if what.isdigit() and SIZE[t] != int(what))
+            run.violation(rule, f, 'expr data store wider than the item', 'the value of an expr data item is stored with %s bytes for result types %s, '
+                          'while load_bss_data_section reserved %s: the bytes behind the item — data the loader has already initialised, or '
+                          'memory past the section — are overwritten with the sign extension' %
+                          (what, wrong[:6], sorted({SIZE[t] for t in wrong})), line=c['l'])
+    return n
